@@ -1,7 +1,7 @@
-(* C10 — proofs about the model (Import.v, Bits.v). *)
+(* C10 — proofs about the model of the importer (Import.v). *)
 From Coq Require Import String Ascii ZArith List Bool Lia.
 From Coq Require Import ZifyBool.
-From Acme.C10 Require Import DbcDoc BusModel Import Bits.
+From Acme.C10 Require Import DbcDoc BusModel Import Bits BitsProofs.
 Import ListNotations.
 Open Scope Z_scope.
 Ltac Zify.zify_post_hook ::= Z.div_mod_to_equations.
@@ -13,4 +13,353 @@ Proof.
   intros [|] p Hp; unfold pos_of_dbc, dbc_of_pos; split; try reflexivity.
   - assert (H : (p + 7 - 2 * (p mod 8)) mod 8 = 7 - p mod 8) by lia. rewrite H. lia.
   - assert (H : (p + 7 - 2 * (p mod 8)) mod 8 = 7 - p mod 8) by lia. rewrite H. lia.
+Qed.
+
+Lemma get_start_bit_pos : forall ds, get_start_bit ds = pos_of_dbc (ds_order ds) (ds_start ds).
+Proof. intros ds. unfold get_start_bit, pos_of_dbc. destruct (ds_order ds); reflexivity. Qed.
+
+(* import_decode_dbc: a signal imported at the position the importer computes from the file's
+   start bit is decoded to the raw value the DBC rule prescribes for the file's start bit *)
+Lemma import_decode_dbc : forall ds data,
+  0 <= ds_start ds -> 1 <= ds_size ds -> get_start_bit ds + ds_size ds <= 64 ->
+  d08_excluded (ds_order ds) (get_start_bit ds) (ds_size ds) = false ->
+  go_raw (ds_order ds) (get_start_bit ds) (ds_size ds) data
+  = dbc_raw (ds_order ds) (ds_start ds) (ds_size ds) data.
+Proof.
+  intros ds data Hs Hz Hb Hd.
+  assert (Hp : 0 <= get_start_bit ds).
+  { rewrite get_start_bit_pos. unfold pos_of_dbc. destruct (ds_order ds); lia. }
+  rewrite go_raw_is_dbc_raw by assumption.
+  rewrite get_start_bit_pos.
+  destruct (start_bit_inverse (ds_order ds) (ds_start ds) Hs) as [_ H]. rewrite H. reflexivity.
+Qed.
+
+(* ------------------------------------------------------------------------------------------ *)
+(* generic facts about the result monad and folds                                              *)
+(* ------------------------------------------------------------------------------------------ *)
+Lemma bind_ok : forall {A B} (r : result A) (f : A -> result B) b,
+  bind r f = Ok b -> exists a, r = Ok a /\ f a = Ok b.
+Proof. intros A B [a|w] f b H; cbn in H; [eauto | discriminate]. Qed.
+
+Lemma fold_result_err : forall {A B} (f : result A -> B -> result A),
+  (forall x w, f (Err w) x = Err w) -> forall l w, fold_left f l (Err w) = Err w.
+Proof. intros A B f Hf l. induction l as [|x r IH]; intros w; cbn; [reflexivity|]. rewrite Hf. apply IH. Qed.
+
+Lemma fold_result_inv : forall {A B} (f : result A -> B -> result A) (P : A -> Prop),
+  (forall x w, f (Err w) x = Err w) ->
+  (forall a x a', P a -> f (Ok a) x = Ok a' -> P a') ->
+  forall l a0 a, P a0 -> fold_left f l (Ok a0) = Ok a -> P a.
+Proof.
+  intros A B f P Herr Hstep l. induction l as [|x r IH]; intros a0 a H0 H; cbn in H.
+  - inversion H; subst; assumption.
+  - destruct (f (Ok a0) x) as [a1|w] eqn:E.
+    + eapply IH; [|exact H]. eapply Hstep; eauto.
+    + rewrite fold_result_err in H by assumption. discriminate.
+Qed.
+
+(* ------------------------------------------------------------------------------------------ *)
+(* the skeleton of a bus: everything importAttributes cannot change                             *)
+(* ------------------------------------------------------------------------------------------ *)
+Definition sig_skel (s : signal) :=
+  (s_id s, s_name s, s_kind s, s_rel s, s_parent s, s_groups s, s_size s, s_signed s,
+   (s_scale s, s_offset s, s_min s, s_max s, s_unit s, s_enum s, s_gcount s, s_gsize s, s_desc s)).
+Definition msg_skel (m : message) :=
+  (m_canid m, m_name m, m_size m, m_order m, m_sender m, m_receivers m, m_desc m, map sig_skel (m_signals m)).
+Definition node_skel (n : node) := (n_name n, n_id n, n_desc n).
+Definition bus_skel (b : bus) :=
+  (b_name b, b_desc b, map node_skel (b_nodes b), b_enums b, map msg_skel (b_messages b)).
+
+Lemma update_first_skel : forall {A S} (skel : A -> S) p f l l',
+  (forall x y, f x = Ok y -> skel y = skel x) ->
+  update_first p f l = Ok l' -> map skel l' = map skel l.
+Proof.
+  intros A S skel p f l. induction l as [|x r IH]; intros l' Hf H; cbn in H.
+  - inversion H; reflexivity.
+  - destruct (p x).
+    + apply bind_ok in H. destruct H as [y [Hy H]]. inversion H; subst. cbn. rewrite (Hf _ _ Hy). reflexivity.
+    + apply bind_ok in H. destruct H as [r' [Hr H]]. inversion H; subst. cbn. rewrite (IH _ Hf Hr). reflexivity.
+Qed.
+
+Lemma update_nth_skel : forall {A S} (skel : A -> S) n f l l',
+  (forall x y, f x = Ok y -> skel y = skel x) ->
+  update_nth n f l = Ok l' -> map skel l' = map skel l.
+Proof.
+  intros A S skel n f l. revert n. induction l as [|x r IH]; intros n l' Hf H; cbn in H.
+  - destruct n; inversion H; reflexivity.
+  - destruct n.
+    + apply bind_ok in H. destruct H as [y [Hy H]]. inversion H; subst. cbn. rewrite (Hf _ _ Hy). reflexivity.
+    + apply bind_ok in H. destruct H as [r' [Hr H]]. inversion H; subst. cbn. rewrite (IH _ _ Hf Hr). reflexivity.
+Qed.
+
+Lemma try_assign_ok : forall name d v l l', try_assign name d v l = Ok l' -> True.
+Proof. trivial. Qed.
+
+Lemma assign_message_skel : forall name d v m m', assign_message name d v m = Ok m' -> msg_skel m' = msg_skel m.
+Proof.
+  intros name d v m m' H. unfold assign_message in H.
+  destruct (special_of name) as [[| | | | |]|]; try (destruct v; inversion H; subst; reflexivity);
+    try (inversion H; subst; reflexivity).
+  apply bind_ok in H. destruct H as [a [_ H]]. inversion H; subst. reflexivity.
+Qed.
+
+Lemma assign_signal_skel : forall name d v s s', assign_signal name d v s = Ok s' -> sig_skel s' = sig_skel s.
+Proof.
+  intros name d v s s' H. unfold assign_signal in H.
+  destruct (special_of name) as [[| | | | |]|]; try (destruct v; inversion H; subst; reflexivity);
+    try (inversion H; subst; reflexivity).
+  apply bind_ok in H. destruct H as [a [_ H]]. inversion H; subst. reflexivity.
+Qed.
+
+Lemma import_attributes_skel : forall sm d b b',
+  import_attributes sm d b = Ok b' -> bus_skel b' = bus_skel b.
+Proof.
+  intros sm d b b' H. unfold import_attributes in H.
+  apply bind_ok in H. destruct H as [attrs [_ H]].
+  revert H. apply (fold_result_inv _ (fun x => bus_skel x = bus_skel b)); [reflexivity| |reflexivity].
+  intros a av a' Ha Hs. cbn [bind] in Hs.
+  destruct (lookup String.eqb (av_name av) attrs) as [ad|]; [|inversion Hs; subst; assumption].
+  apply bind_ok in Hs. destruct Hs as [v [_ Hs]].
+  rewrite <- Ha. clear Ha.
+  destruct (av_kind av).
+  - apply bind_ok in Hs. destruct Hs as [x [_ Hs]]. inversion Hs; subst. reflexivity.
+  - destruct (String.eqb (av_node av) dummy_node); [inversion Hs; subst; reflexivity|].
+    apply bind_ok in Hs. destruct Hs as [ns [Hn Hs]]. inversion Hs; subst.
+    assert (Hmap : map node_skel ns = map node_skel (b_nodes a)).
+    { eapply update_first_skel; [|exact Hn]. intros x y Hxy.
+      apply bind_ok in Hxy. destruct Hxy as [q [_ Hxy]]. inversion Hxy; subst. reflexivity. }
+    unfold bus_skel; cbn [b_name b_desc b_nodes b_enums b_messages set_b_nodes]. rewrite Hmap. reflexivity.
+  - apply bind_ok in Hs. destruct Hs as [ms [Hm Hs]]. inversion Hs; subst.
+    assert (Hmap : map msg_skel ms = map msg_skel (b_messages a)).
+    { eapply update_first_skel; [|exact Hm]. intros x y Hxy. eapply assign_message_skel; eauto. }
+    unfold bus_skel; cbn [b_name b_desc b_nodes b_enums b_messages set_b_messages]. rewrite Hmap. reflexivity.
+  - destruct (lookup key_eqb (av_msg av, av_sig av) sm) as [[mpos sid]|]; [|inversion Hs; subst; reflexivity].
+    apply bind_ok in Hs. destruct Hs as [ms [Hm Hs]]. inversion Hs; subst.
+    assert (Hmap : map msg_skel ms = map msg_skel (b_messages a)).
+    { eapply update_nth_skel; [|exact Hm]. intros x y Hxy.
+      apply bind_ok in Hxy. destruct Hxy as [ss [Hss Hxy]]. inversion Hxy; subst.
+      assert (Hsig : map sig_skel ss = map sig_skel (m_signals x)).
+      { eapply update_first_skel; [|exact Hss]. intros s s' Hs'. eapply assign_signal_skel; eauto. }
+      unfold msg_skel; cbn [m_canid m_name m_size m_order m_sender m_receivers m_desc m_signals set_m_signals].
+      rewrite Hsig. reflexivity. }
+    unfold bus_skel; cbn [b_name b_desc b_nodes b_enums b_messages set_b_messages]. rewrite Hmap. reflexivity.
+  - inversion Hs; subst; reflexivity.
+Qed.
+
+(* ------------------------------------------------------------------------------------------ *)
+(* nodes                                                                                       *)
+(* ------------------------------------------------------------------------------------------ *)
+Definition not_dummy (n : string) : bool := negb (String.eqb n dummy_node).
+
+Lemma import_nodes_aux_names : forall descs names idx acc ns,
+  import_nodes_aux descs names idx acc = Ok ns ->
+  map n_name ns = map n_name acc ++ filter not_dummy names.
+Proof.
+  intros descs names. induction names as [|nm r IH]; intros idx acc ns H; cbn in H.
+  - inversion H; subst. cbn. rewrite app_nil_r. reflexivity.
+  - cbn [filter]. unfold not_dummy at 1. destruct (String.eqb nm dummy_node) eqn:E; cbn [negb].
+    + eapply IH; eauto.
+    + destruct (mem_str nm (map n_name acc)); [discriminate|].
+      destruct (mem_z idx (map n_id acc)); [discriminate|].
+      apply IH in H. rewrite H, map_app. cbn. rewrite <- app_assoc. reflexivity.
+Qed.
+
+Lemma import_nodes_names : forall descs names ns,
+  import_nodes descs names = Ok ns -> map n_name ns = filter not_dummy names ++ [dummy_node].
+Proof.
+  intros descs names ns H. unfold import_nodes in H.
+  apply bind_ok in H. destruct H as [ns0 [H0 H]].
+  destruct (mem_z 1024 (map n_id ns0)); [discriminate|]. inversion H; subst.
+  apply import_nodes_aux_names in H0. cbn in H0. rewrite map_app, H0. reflexivity.
+Qed.
+
+(* node names are pairwise distinct (the importer refuses a duplicate) *)
+Lemma mem_str_false_not_in : forall s l, mem_str s l = false -> ~ In s l.
+Proof.
+  intros s l H Hin. unfold mem_str in H.
+  assert (existsb (String.eqb s) l = true) by (apply existsb_exists; exists s; split; [assumption|apply String.eqb_refl]).
+  congruence.
+Qed.
+
+Lemma nodup_snoc : forall {A} (l : list A) x, NoDup l -> ~ In x l -> NoDup (l ++ [x]).
+Proof.
+  intros A l x Hnd Hx. induction Hnd as [|y l Hy Hl IH]; cbn.
+  - constructor; [intros []|constructor].
+  - constructor.
+    + rewrite in_app_iff. cbn. intros [H|[H|[]]]; [auto|]. subst. apply Hx. left. reflexivity.
+    + apply IH. intros H. apply Hx. right. assumption.
+Qed.
+
+Lemma import_nodes_aux_nodup : forall descs names idx acc ns,
+  NoDup (map n_name acc) -> ~ In dummy_node (map n_name acc) ->
+  import_nodes_aux descs names idx acc = Ok ns ->
+  NoDup (map n_name ns) /\ ~ In dummy_node (map n_name ns).
+Proof.
+  intros descs names. induction names as [|nm r IH]; intros idx acc ns Hnd Hdm H; cbn in H.
+  - inversion H; subst. auto.
+  - destruct (String.eqb nm dummy_node) eqn:E; [eapply IH; eauto|].
+    destruct (mem_str nm (map n_name acc)) eqn:Em; [discriminate|].
+    destruct (mem_z idx (map n_id acc)); [discriminate|].
+    apply IH in H; [assumption| |].
+    + rewrite map_app. cbn. apply nodup_snoc; [assumption|].
+      apply mem_str_false_not_in. assumption.
+    + rewrite map_app, in_app_iff. cbn. intros [Hi|[Hi|[]]]; [auto|].
+      subst. rewrite String.eqb_refl in E. discriminate.
+Qed.
+
+(* ------------------------------------------------------------------------------------------ *)
+(* messages                                                                                    *)
+(* ------------------------------------------------------------------------------------------ *)
+Definition sorted_signals (dm : dmessage) : list dsignal :=
+  sort_by (fun a b => get_start_bit a <? get_start_bit b) (dm_signals dm).
+(* receivers of a message: union of the signals' receivers without the placeholder *)
+Definition recs_of (dm : dmessage) : list string :=
+  filter not_dummy (dedup_str [] (flat_map ds_receivers (sorted_signals dm))).
+Definition order_of (dm : dmessage) : byte_order :=
+  match sorted_signals dm with [] => LittleEndian | s :: _ => ds_order s end.
+
+Definition msg_head (m : message) := (m_canid m, m_name m, m_size m, m_sender m, m_receivers m, m_order m).
+Definition dmsg_head (dm : dmessage) := (dm_id dm, dm_name dm, dm_size dm, dm_tx dm, recs_of dm, order_of dm).
+
+Lemma import_message_inv : forall st msgs nodes dm st' msgs',
+  import_message (st, msgs) nodes dm = Ok (st', msgs') ->
+  exists m sigs,
+    msgs' = msgs ++ [m] /\ msg_head m = dmsg_head dm /\ m_signals m = sigs /\
+    import_message_signals st (length msgs) dm = Ok (st', sigs) /\
+    m_desc m = match lookup Z.eqb (dm_id dm) (is_msg_desc st) with Some d => d | None => EmptyString end /\
+    m_attrs m = [] /\ m_cycle m = 0 /\ m_delay m = 0 /\ m_startdelay m = 0 /\ m_sendtype m = 0 /\
+    forallb (fun r => mem_str r (map n_name nodes)) (recs_of dm) = true /\
+    mem_str (dm_tx dm) (map n_name nodes) = true /\
+    dm_size dm <= 8 /\ mem_z (dm_id dm) (map m_canid msgs) = false /\
+    forallb (fun s => bo_eqb (ds_order s) (order_of dm)) (sorted_signals dm) = true.
+Proof.
+  intros st msgs nodes dm st' msgs' H. unfold import_message in H.
+  fold (sorted_signals dm) in H. fold (order_of dm) in H.
+  destruct (forallb (fun s => bo_eqb (ds_order s) (order_of dm)) (sorted_signals dm)) eqn:Eo; cbn [negb] in H; [|discriminate].
+  change (filter (fun r : string => negb (r =? dummy_node)%string)
+                 (dedup_str [] (flat_map ds_receivers (sorted_signals dm)))) with (recs_of dm) in H.
+  destruct (forallb (fun r => mem_str r (map n_name nodes)) (recs_of dm)) eqn:Er; cbn [negb] in H; [|discriminate].
+  destruct (mem_str (dm_tx dm) (map n_name nodes)) eqn:Et; cbn [negb] in H; [|discriminate].
+  destruct (mem_str (dm_name dm) _); [discriminate|].
+  destruct (dm_size dm >? 8) eqn:Es; [discriminate|].
+  destruct (mem_z (dm_id dm) (map m_canid msgs)) eqn:Ei; [discriminate|].
+  apply bind_ok in H. destruct H as [[st1 sigs] [Hs H]]. inversion H; subst.
+  eexists; exists sigs. repeat split; try reflexivity; try assumption. lia.
+Qed.
+
+Lemma import_messages_fold : forall nodes dms st msgs st' msgs',
+  fold_left (fun acc dm => do a <- acc; import_message a nodes dm) dms (Ok (st, msgs)) = Ok (st', msgs') ->
+  map msg_head msgs' = map msg_head msgs ++ map dmsg_head dms.
+Proof.
+  intros nodes dms. induction dms as [|dm r IH]; intros st msgs st' msgs' H; cbn [fold_left] in H.
+  - inversion H; subst. cbn. rewrite app_nil_r. reflexivity.
+  - cbn [bind] in H.
+    destruct (import_message (st, msgs) nodes dm) as [[st1 msgs1]|w] eqn:E.
+    + apply IH in H. apply import_message_inv in E.
+      destruct E as [m [sigs [Hm [Hh _]]]]. subst msgs1.
+      rewrite H, map_app. cbn. rewrite Hh, <- app_assoc. reflexivity.
+    + rewrite fold_result_err in H by reflexivity. discriminate.
+Qed.
+
+(* ---- the top-level structure of `import` ---- *)
+Lemma import_inv : forall d b, import d = Ok b ->
+  exists bdesc st0 st3 nodes st4 msgs b1,
+    import_comments (d_comments d) = (bdesc, st0) /\
+    import_nodes (is_node_desc st3) (d_nodes d) = Ok nodes /\
+    is_node_desc st3 = is_node_desc st0 /\ is_msg_desc st3 = is_msg_desc st0 /\ is_sig_desc st3 = is_sig_desc st0 /\
+    fold_left (fun acc dm => do a <- acc; import_message a nodes dm) (d_messages d) (Ok (st3, [])) = Ok (st4, msgs) /\
+    import_attributes (is_sigmap st4) d (mkbus (d_filename d) bdesc [] nodes (is_enums st4) msgs) = Ok b1 /\
+    b = (if existsb (fun m => String.eqb (m_sender m) dummy_node) (b_messages b1) then b1
+         else set_b_nodes b1 (filter (fun n => negb (String.eqb (n_name n) dummy_node)) (b_nodes b1))).
+Proof.
+  intros d b H. unfold import in H.
+  destruct (import_comments (d_comments d)) as [bdesc st0] eqn:Ec.
+  apply bind_ok in H. destruct H as [st1 [H1 H]].
+  apply bind_ok in H. destruct H as [st2 [H2 H]].
+  apply bind_ok in H. destruct H as [nodes [Hn H]].
+  apply bind_ok in H. destruct H as [[st4 msgs] [Hm H]].
+  apply bind_ok in H. destruct H as [b1 [Hb H]].
+  assert (Hd1 : is_node_desc st1 = is_node_desc st0 /\ is_msg_desc st1 = is_msg_desc st0 /\ is_sig_desc st1 = is_sig_desc st0).
+  { revert H1. apply (fold_result_inv _ (fun s => is_node_desc s = is_node_desc st0 /\ is_msg_desc s = is_msg_desc st0 /\ is_sig_desc s = is_sig_desc st0));
+      [reflexivity| |auto].
+    intros a x a' Ha Hx. cbn [bind] in Hx. unfold import_value_table in Hx.
+    apply bind_ok in Hx. destruct Hx as [e [_ Hx]]. inversion Hx; subst. exact Ha. }
+  assert (Hd2 : is_node_desc st2 = is_node_desc st0 /\ is_msg_desc st2 = is_msg_desc st0 /\ is_sig_desc st2 = is_sig_desc st0).
+  { revert H2. apply (fold_result_inv _ (fun s => is_node_desc s = is_node_desc st0 /\ is_msg_desc s = is_msg_desc st0 /\ is_sig_desc s = is_sig_desc st0));
+      [reflexivity| |exact Hd1].
+    intros a x a' Ha Hx. cbn [bind] in Hx. unfold import_value_encoding in Hx.
+    destruct (negb (ve_signal x)); [inversion Hx; subst; exact Ha|].
+    destruct (find_in_registry _ _ _); [inversion Hx; subst; exact Ha|].
+    apply bind_ok in Hx. destruct Hx as [e [_ Hx]]. inversion Hx; subst. exact Ha. }
+  exists bdesc, st0, (import_ext_muxes st2 (d_extmuxes d)), nodes, st4, msgs, b1.
+  repeat split; try assumption; try (cbn; apply Hd2).
+  destruct (existsb _ _); inversion H; reflexivity.
+Qed.
+
+Definition head_of_skel (k : Z * string * Z * byte_order * string * list string * string * list
+   (Z * string * skind * Z * option Z * list Z * Z * bool * (fl * fl * fl * fl * string * Z * Z * Z * string)))
+  := let '(c, n, sz, o, snd_, recs, _, _) := k in (c, n, sz, snd_, recs, o).
+Lemma msg_head_skel : forall m, msg_head m = head_of_skel (msg_skel m).
+Proof. intros m. reflexivity. Qed.
+
+Lemma map_ext_skel : forall {A S T} (skel : A -> S) (g : S -> T) (f : A -> T) l l',
+  (forall x, f x = g (skel x)) -> map skel l = map skel l' -> map f l = map f l'.
+Proof.
+  intros A S T skel g f l l' Hf H.
+  rewrite (map_ext f (fun x => g (skel x))) by assumption.
+  rewrite (map_ext f (fun x => g (skel x)) Hf l').
+  rewrite <- !map_map. rewrite H. reflexivity.
+Qed.
+
+Lemma existsb_map : forall {A B} (g : A -> B) p l, existsb p (map g l) = existsb (fun x => p (g x)) l.
+Proof. intros A B g p l. induction l; cbn; [reflexivity|]. rewrite IHl. reflexivity. Qed.
+
+Lemma filter_map_comm : forall {A B} (g : A -> B) p l, filter p (map g l) = map g (filter (fun x => p (g x)) l).
+Proof. intros A B g p l. induction l; cbn; [reflexivity|]. destruct (p (g a)); cbn; rewrite IHl; reflexivity. Qed.
+
+Lemma filter_idem : forall {A} (p : A -> bool) l, filter p (filter p l) = filter p l.
+Proof.
+  intros A p l. induction l; cbn; [reflexivity|]. destruct (p a) eqn:E; cbn; rewrite ?E, IHl; reflexivity.
+Qed.
+
+Lemma import_messages_heads : forall d b, import d = Ok b ->
+  map msg_head (b_messages b) = map dmsg_head (d_messages d).
+Proof.
+  intros d b H. apply import_inv in H.
+  destruct H as [bdesc [st0 [st3 [nodes [st4 [msgs [b1 [_ [_ [_ [_ [_ [Hm [Hb Hbb]]]]]]]]]]]]]].
+  apply import_attributes_skel in Hb. unfold bus_skel in Hb. cbn in Hb.
+  assert (Hk : map msg_skel (b_messages b1) = map msg_skel msgs) by (inversion Hb; assumption).
+  assert (Hb' : b_messages b = b_messages b1) by (subst b; destruct (existsb _ _); reflexivity).
+  rewrite Hb'. rewrite (map_ext_skel msg_skel head_of_skel msg_head _ msgs msg_head_skel Hk).
+  apply import_messages_fold in Hm. cbn in Hm. exact Hm.
+Qed.
+
+(* import_nodes: exactly the file's nodes, in order, plus the placeholder sender when a message names none *)
+Lemma import_nodes_thm : forall d b, import d = Ok b ->
+  map n_name (b_nodes b) =
+  filter not_dummy (d_nodes d)
+  ++ (if existsb (fun dm => String.eqb (dm_tx dm) dummy_node) (d_messages d) then [dummy_node] else []).
+Proof.
+  intros d b H. pose proof (import_messages_heads d b H) as Hh. apply import_inv in H.
+  destruct H as [bdesc [st0 [st3 [nodes [st4 [msgs [b1 [_ [Hn [_ [_ [_ [Hm [Hb Hbb]]]]]]]]]]]]]].
+  apply import_attributes_skel in Hb. unfold bus_skel in Hb. cbn in Hb.
+  assert (Hk : map node_skel (b_nodes b1) = map node_skel nodes) by (inversion Hb; assumption).
+  assert (Hnames : map n_name (b_nodes b1) = map n_name nodes).
+  { apply (map_ext_skel node_skel (fun k => fst (fst k)) n_name); [reflexivity|assumption]. }
+  apply import_nodes_names in Hn.
+  assert (Hsend : existsb (fun m => String.eqb (m_sender m) dummy_node) (b_messages b1)
+                  = existsb (fun dm => String.eqb (dm_tx dm) dummy_node) (d_messages d)).
+  { assert (Hb' : b_messages b = b_messages b1) by (subst b; destruct (existsb _ _); reflexivity).
+    rewrite Hb' in Hh.
+    assert (Hs : map m_sender (b_messages b1) = map dm_tx (d_messages d)).
+    { rewrite (map_ext m_sender (fun m => snd (fst (fst (msg_head m))))) by reflexivity.
+      rewrite (map_ext dm_tx (fun m => snd (fst (fst (dmsg_head m))))) by reflexivity.
+      rewrite <- (map_map msg_head), <- (map_map dmsg_head), Hh. reflexivity. }
+    rewrite <- (existsb_map m_sender (fun s => String.eqb s dummy_node)).
+    rewrite <- (existsb_map dm_tx (fun s => String.eqb s dummy_node)). rewrite Hs. reflexivity. }
+  rewrite Hsend in Hbb. subst b.
+  destruct (existsb (fun dm => String.eqb (dm_tx dm) dummy_node) (d_messages d)).
+  - rewrite Hnames, Hn. reflexivity.
+  - cbn [b_nodes set_b_nodes].
+    rewrite <- (filter_map_comm n_name not_dummy). rewrite Hnames, Hn.
+    rewrite filter_app, filter_idem. cbn. rewrite app_nil_r. reflexivity.
 Qed.
